@@ -8,6 +8,8 @@
 (*   opt     xoptional<T, bool>                    optref xoptional<T&, bool&> *)
 (*   optcr   xoptional<const T&, const bool&>      optvr  xoptional<T&, bool>  *)
 (*   masked  xmasked_value<T, bool>                mref   xmasked_value<T&, bool&> *)
+(*   optbr   xoptional<T&, bitset::reference>: the flag is a proxy for one bit  *)
+(*           of a caller's xdynamic_bitset (the element type of xoptional_vector) *)
 (* (T = the counting integer operand type of the harness), or               *)
 (*   dplain  double    dopt  xoptional<double, bool>                        *)
 (*   dmasked xmasked_value<double, bool>     (real IEEE operands: integers, *)
@@ -63,15 +65,16 @@ vars == <<r, va, fa, evals, last, pre>>
 absvars == <<r, va, fa>>
 
 Regs       == DOMAIN r      \* 1..NReg in the model checker; the trace of an execution fixes its own number
-OptKinds   == {"opt", "optref", "optcr", "optvr", "dopt"}
+OptKinds   == {"opt", "optref", "optcr", "optvr", "optbr", "dopt"}
 MskKinds   == {"masked", "mref", "dmasked", "mo"}
 PlainKinds == {"plain", "int", "dplain", "po"}
 DKinds     == {"dplain", "dopt", "dmasked"}                  \* the value type is double
 MixKinds   == {"mo", "po"}                                   \* the value type is xoptional<T>
 Kinds      == OptKinds \cup MskKinds \cup PlainKinds
-Writable   == {"opt", "optref", "optvr", "masked", "mref", "dopt", "dmasked", "mo"}   \* optcr closes over const referents
-ValRef     == {"optref", "optcr", "optvr", "mref"}           \* the value is a reference to a caller's cell
-FlagRef    == {"optref", "optcr", "mref"}                    \* the flag is a reference to a caller's cell
+Writable   == {"opt", "optref", "optvr", "optbr", "masked", "mref", "dopt", "dmasked", "mo"}   \* optcr closes over const referents
+ValRef     == {"optref", "optcr", "optvr", "mref", "optbr"}           \* the value is a reference to a caller's cell
+FlagRef    == {"optref", "optcr", "mref", "optbr"}           \* the flag is a reference to (optbr: a proxy for) a caller's cell
+BitFlag    == {"optbr"}                                      \* ... a single bit of a caller's bitset: not shareable with a bool&
 LiftedK(k) == k \notin PlainKinds
 
 ----------------------------------------------------------------------------
@@ -323,7 +326,7 @@ ValueOr(i, dv, form, o) ==
 (* plain assignment, swap) follow the documented behaviour of the two classes; the statement of the property   *)
 (* does not name them and the runner reports a deviation there as advisory (MODEL-DRIFT).                      *)
 
-LoadHows == {"plain", "int", "opt2", "opt1", "optdef", "missing", "optional_vv", "optref", "optional_rr", "optcr",
+LoadHows == {"plain", "int", "opt2", "opt1", "optdef", "missing", "optional_vv", "optref", "optional_rr", "optcr", "optbr",
              "optvr", "optional_rv", "masked2", "masked1", "maskeddef", "maskedf", "masked_value1", "masked_value2",
              "mref", "masked_value_rr", "dplain", "dopt2", "dmasked2", "mo2", "po2",
              "opt_from_ref", "opt_from_cref", "opt_from_vr", "opt_from_int", "opt_from_intmv"}
@@ -337,6 +340,7 @@ LoadKind(how) ==
                   "opt_from_int", "opt_from_intmv"} -> "opt"
       [] how \in {"optref", "optional_rr"} -> "optref"
       [] how = "optcr" -> "optcr"
+      [] how = "optbr" -> "optbr"
       [] how \in {"optvr", "optional_rv"} -> "optvr"
       [] how \in {"masked2", "masked1", "maskeddef", "maskedf", "masked_value1", "masked_value2"} -> "masked"
       [] how \in {"mref", "masked_value_rr"} -> "mref"
@@ -362,7 +366,7 @@ Load(i, how, has, v, o) ==
 AliasHows == {"optref", "optcr", "optvr", "mref"}
 Alias(i, how, j, has, o) ==
     /\ i \in Regs /\ j \in Regs /\ i # j /\ how \in AliasHows /\ has \in BOOLEAN
-    /\ r[j].kind \in (IF how = "optvr" THEN ValRef ELSE FlagRef)
+    /\ r[j].kind \in (IF how = "optvr" THEN ValRef ELSE FlagRef \ BitFlag)
     /\ LET h == IF how = "optvr" THEN has ELSE r[j].has IN
        /\ Legal(o, Loose(how, h, r[j].val, TRUE))
        /\ DoA("Alias", [i |-> i, how |-> how, j |-> j, has |-> has], o,
@@ -424,7 +428,8 @@ AF(i) == IF r[i].kind \in FlagRef THEN MinOf({k \in Regs : SharesF(r, fa, i, k)}
 Proj(i) == LET x == r[i] IN
     [kind |-> x.kind, has |-> x.has, val |-> x.val,
      ref  |-> [has |-> IF x.kind \in FlagRef THEN x.has ELSE FALSE,      \* the caller's cells behind a
-               val |-> IF x.kind \in ValRef THEN x.val ELSE 0],          \* reference closure, read directly
+               val |-> IF x.kind \in ValRef THEN x.val ELSE 0,           \* reference closure, read directly
+               g   |-> TRUE],                                            \* (proxy flag: the neighbouring bits are untouched)
      al   |-> [v |-> AV(i), f |-> AF(i)]]                                \* the lowest register closing over the same cell
 ProjAll == [r |-> [i \in Regs |-> Proj(i)], evals |-> evals]
 
@@ -490,7 +495,7 @@ NLoad == G /\ "load" \in Classes /\ C({1, 2, 3}) /\ \E i \in I1, how \in LoadHow
                                                ELSE Canon0(WLoad(how, h, v)))
 NAlias == G /\ ("load" \in Classes \/ "alias" \in Classes) /\ ~Canonical /\ \E i \in Regs, j \in Regs, how \in AliasHows, h \in BOOLEAN :
     /\ how # "optvr" => h
-    /\ i # j /\ r[j].kind \in (IF how = "optvr" THEN ValRef ELSE FlagRef)
+    /\ i # j /\ r[j].kind \in (IF how = "optvr" THEN ValRef ELSE FlagRef \ BitFlag)
     /\ Alias(i, how, j, h, Canon0(Loose(how, IF how = "optvr" THEN h ELSE r[j].has, r[j].val, TRUE)))
 
 Next == \/ NUnary \/ NBinary \/ NTernary \/ NCompare \/ NCompound \/ NCompoundSelf \/ NSelect \/ NValueOr
